@@ -26,6 +26,10 @@ type Case struct {
 	T  string `json:"t"`  // operand type: i8 i16 i32 i64 f32 f64
 	A  []int  `json:"a"`
 	B  []int  `json:"b"`
+	// vector cases (t = "v128"): lane width, third operand / scalar / immediate bytes, instruction name
+	W    int    `json:"w"`
+	C    []int  `json:"c"`
+	Wasm string `json:"wasm"`
 }
 
 type Expected struct {
@@ -33,6 +37,8 @@ type Expected struct {
 	V    []int  `json:"v"`
 	Trap string `json:"trap"`
 	NaN  bool   `json:"nan"`
+	NL   []int  `json:"nl"` // vector result: lanes that are "some NaN"
+	LW   int    `json:"lw"` // ... of this width
 }
 
 // instruction descriptor: how the spec operation maps to WebAssembly
@@ -247,7 +253,7 @@ func Cases(args []string) {
 	id := 0
 	emit := func(d opDesc, a, b uint64) {
 		id++
-		c := Case{ID: id, Op: d.spec, T: d.t, A: toBytes(a, width(d.t)), B: []int{}}
+		c := Case{ID: id, Op: d.spec, T: d.t, A: toBytes(a, width(d.t)), B: []int{}, C: []int{}}
 		if d.binary {
 			c.B = toBytes(b, width(d.t))
 		}
@@ -280,7 +286,14 @@ func Cases(args []string) {
 			}
 		}
 	}
-	common.Emit(map[string]int{"cases": id})
+	scalar := id
+	vecCases(rng, func(c Case) {
+		id++
+		c.ID = id
+		j, _ := json.Marshal(c)
+		f.Write(append(j, '\n'))
+	})
+	common.Emit(map[string]int{"cases": id, "scalar": scalar, "vector": id - scalar})
 	common.Flush()
 }
 
@@ -308,7 +321,7 @@ func constInstr(t string, v uint64) []byte {
 
 func opBytes(name string) []byte {
 	// wazero's instruction table names the i8x16 saturating subtractions without "sat"
-	if alias, ok := map[string]string{"i8x16.sub_sat_s": "i8x16.sub_s", "i8x16.sub_sat_u": "i8x16.sub_u", "f32.convert_i64_u": "f32.convert_i64u"}[name]; ok {
+	if alias, ok := map[string]string{"i8x16.sub_sat_s": "i8x16.sub_s", "i8x16.sub_sat_u": "i8x16.sub_u", "f32.convert_i64_u": "f32.convert_i64u", "i8x16.shuffle": "v128.shuffle"}[name]; ok {
 		name = alias
 	}
 	return wgen.Opcode(name)
@@ -364,9 +377,14 @@ func Check(args []string) {
 		descs[d.spec+"/"+d.t] = d
 	}
 	var order []string
+	vecGroups := map[string][]Case{}
 	for _, l := range lines {
 		var c Case
 		_ = json.Unmarshal(l, &c)
+		if c.T == "v128" {
+			vecGroups[c.Wasm] = append(vecGroups[c.Wasm], c)
+			continue
+		}
 		k := c.Op + "/" + c.T
 		if byOp[k] == nil {
 			byOp[k] = &group{d: descs[k]}
@@ -571,7 +589,32 @@ func Check(args []string) {
 			rt.Close(ctx)
 		}
 	}
-	res.Obs = map[string]int{"executions": nexec, "cases": len(lines), "ops": len(order)}
+	nvec := 0
+	for _, d := range vecOps() {
+		cases := vecGroups[d.wasm]
+		if len(cases) == 0 {
+			continue
+		}
+		nvec++
+		for _, engine := range []string{"interpreter", "compiler"} {
+			cfg := wazero.NewRuntimeConfigInterpreter()
+			if engine == "compiler" {
+				cfg = wazero.NewRuntimeConfigCompiler()
+			}
+			rt := wazero.NewRuntimeWithConfig(ctx, cfg)
+			fail := func(c Case, form, what, msg string) {
+				key := fmt.Sprintf("op=%s;engine=%s;form=%s#%s", d.wasm, engine, form, what)
+				if seen[key] {
+					return
+				}
+				seen[key] = true
+				res.Fails = append(res.Fails, failure{Case: c.ID, Key: key, Msg: fmt.Sprintf("%s %s(a=% x, b=% x, c=% x) [%s]: %s", engine, d.wasm, bytesOf(c.A), bytesOf(c.B), bytesOf(c.C), form, msg)})
+			}
+			checkVector(ctx, rt, d, cases, exp, engine, fail, &nexec)
+			rt.Close(ctx)
+		}
+	}
+	res.Obs = map[string]int{"executions": nexec, "cases": len(lines), "ops": len(order), "vector_ops": nvec}
 	common.Emit(res)
 	common.Flush()
 }
